@@ -35,7 +35,10 @@ NoRes == [err |-> "", vid |-> -1, dm |-> FALSE, uid |-> -1]
 \*   class, wseq (time of last write to this version), cseq (row creation time),
 \*   mseq (time Last-Modified was last set), seq1 (part rows numbered from 1, as a
 \*   completed multipart upload leaves them; everything else numbers from 0),
-\*   pcls (per part: the storage class that routed the part's bytes to a part store)
+\*   pcls (per part: the storage class that routed the part's bytes to a part store),
+\*   ck (which x-amz-checksum values the version carries: "full" = all five over the bytes,
+\*   "fullcrc" = CRC32/CRC32C/CRC64NVME of the concatenated parts (FULL_OBJECT multipart),
+\*   "composite" = checksum-of-part-checksums "-N" (COMPOSITE multipart), "none")
 
 EmptyMeta == [sys |-> None, user |-> None, redir |-> None]
 
@@ -131,7 +134,7 @@ PutVersioning(S, b, status) ==
 NewRec(S, vid, nr, cseq) ==
   [vid |-> vid, dm |-> FALSE, latest |-> TRUE, parts |-> nr.parts, single |-> nr.single,
    ctype |-> nr.ctype, meta |-> nr.meta, tags |-> nr.tags, class |-> nr.class,
-   wseq |-> S.clock, cseq |-> cseq, mseq |-> S.clock, seq1 |-> nr.seq1, pcls |-> nr.pcls]
+   wseq |-> S.clock, cseq |-> cseq, mseq |-> S.clock, seq1 |-> nr.seq1, pcls |-> nr.pcls, ck |-> nr.ck]
 
 Install(S, b, k, nr, cond, rowCseq) ==
   LET vs == Versions(S, b, k)
@@ -156,11 +159,16 @@ Install(S, b, k, nr, cond, rowCseq) ==
 
 ClassOf(c) == IF c = None THEN "STANDARD" ELSE c
 
-PutObject(S, b, k, blob, ctype, meta, tags, class, cond) ==
-  IF ~Exists(S, b) THEN Err(S, "NoSuchBucket")
+\* cksum in {"none", "md5ok", "md5bad", "crc32ok", "crc32bad", "sha256ok", "sha256bad"}: a checksum or
+\* Content-MD5 supplied with the request; one that disagrees with the body fails the write (C04).
+\* The body is streamed and verified before the bucket is looked up.
+BadSum(cksum) == cksum \in {"md5bad", "crc32bad", "sha256bad"}
+PutObject(S, b, k, blob, ctype, meta, tags, class, cond, cksum) ==
+  IF BadSum(cksum) THEN Err(S, "BadDigest")
+  ELSE IF ~Exists(S, b) THEN Err(S, "NoSuchBucket")
   ELSE Install(S, b, k, [parts |-> << <<blob>> >>, single |-> TRUE, ctype |-> ctype,
                          meta |-> meta, tags |-> tags, class |-> ClassOf(class), seq1 |-> FALSE,
-                         pcls |-> <<ClassOf(class)>>], cond, 0)
+                         pcls |-> <<ClassOf(class)>>, ck |-> "full"], cond, 0)
 
 \* ------------------------------------------------------------------ reads
 \* view of one version as Head/Get report it
@@ -198,7 +206,7 @@ DeleteObject(S, b, k, vid, cond) ==
            v == S.nv
            marker == [vid |-> v, dm |-> TRUE, latest |-> TRUE, parts |-> <<>>, single |-> TRUE,
                       ctype |-> None, meta |-> EmptyMeta, tags |-> None, class |-> "STANDARD",
-                      wseq |-> S.clock, cseq |-> S.clock, mseq |-> S.clock, seq1 |-> FALSE, pcls |-> <<>>]
+                      wseq |-> S.clock, cseq |-> S.clock, mseq |-> S.clock, seq1 |-> FALSE, pcls |-> <<>>, ck |-> "none"]
            vs2 == Append(ClearLatest(S, vs1), marker)
        IN [s |-> Tick([SetKey(S, b, k, vs2) EXCEPT !.nv = @ + 1]),
            r |-> [NoRes EXCEPT !.vid = v, !.dm = TRUE]]
@@ -233,7 +241,7 @@ CopyObject(S, sb, sk, svid, db, dk, mdir, tdir, ctype, meta, tags, class) ==
                   meta |-> nmeta,
                   tags |-> IF tdir = "REPLACE" THEN tags ELSE sv.tags,
                   class |-> ClassOf(class), seq1 |-> FALSE,
-                  pcls |-> [j \in 1..Len(sv.parts) |-> ClassOf(class)]]
+                  pcls |-> [j \in 1..Len(sv.parts) |-> ClassOf(class)], ck |-> sv.ck]
        IN Install(S, db, dk, nr, "none", 0)
 
 \* ----------------------------------------------------------------- append
@@ -243,14 +251,15 @@ CopyObject(S, sb, sk, svid, db, dk, mdir, tdir, ctype, meta, tags, class) ==
 \* over from an Enabled phase ("D-C13-append-suspended-in-place").  The property (C02,
 \* C13) allows in-place extension of the null version only; otherwise the append must
 \* produce the null version.
-AppendObject(S, b, k, blob, off) ==
+AppendObject(S, b, k, blob, off, cksum) ==
   IF ~Exists(S, b) THEN Err(S, "NoSuchBucket")
   ELSE LET vs == Versions(S, b, k)
            inPlace == "D-C13-append-suspended-in-place" \in S.dev
            fresh == [parts |-> << <<blob>> >>, single |-> FALSE, ctype |-> None,
                      meta |-> EmptyMeta, tags |-> None, class |-> "STANDARD", seq1 |-> FALSE,
-                     pcls |-> <<"STANDARD">>] IN
+                     pcls |-> <<"STANDARD">>, ck |-> "none"] IN
   IF off = "mismatch" THEN Err(S, "InvalidWriteOffset")
+  ELSE IF BadSum(cksum) THEN Err(S, "BadDigest")
   ELSE IF ~HasCurrent(vs)
   THEN IF LatestIdx(vs) # 0 /\ S.bver[b] # "Enabled" /\ inPlace
        THEN \* current is a delete marker: its row is rewritten into an object version
@@ -267,7 +276,7 @@ AppendObject(S, b, k, blob, off) ==
                        meta |-> IF keep THEN cur.meta ELSE EmptyMeta,
                        tags |-> IF keep THEN cur.tags ELSE None,
                        class |-> IF keep THEN cur.class ELSE "STANDARD", seq1 |-> FALSE,
-                       pcls |-> Append(cur.pcls, cur.class)]
+                       pcls |-> Append(cur.pcls, cur.class), ck |-> "none"]
             IN Install(S, b, k, nr, "none", 0)
        ELSE IF (cur.vid = 0 \/ inPlace) /\ cur.seq1
        THEN \* Quirk (not covered by a listed property): the appended part row is numbered
@@ -279,18 +288,19 @@ AppendObject(S, b, k, blob, off) ==
             LET i == LatestIdx(vs)
                 vs2 == [vs EXCEPT ![i] = [cur EXCEPT !.parts = nparts, !.single = FALSE,
                                                      !.wseq = S.clock, !.mseq = S.clock,
-                                                     !.pcls = Append(cur.pcls, cur.class)]]
+                                                     !.pcls = Append(cur.pcls, cur.class), !.ck = "none"]]
             IN Ok(Tick(SetKey(S, b, k, vs2)))
        ELSE Install(S, b, k, [parts |-> nparts, single |-> FALSE, ctype |-> cur.ctype, meta |-> cur.meta,
                               tags |-> cur.tags, class |-> cur.class, seq1 |-> FALSE,
-                              pcls |-> Append(cur.pcls, cur.class)], "none", 0)
+                              pcls |-> Append(cur.pcls, cur.class), ck |-> "none"], "none", 0)
 
 \* -------------------------------------------------------------- multipart
-CreateUpload(S, b, k, ctype, meta, tags, class) ==
+CreateUpload(S, b, k, ctype, meta, tags, class, cktype) ==
   IF ~Exists(S, b) THEN Err(S, "NoSuchBucket")
   ELSE LET u == S.nu
            up == [uid |-> u, b |-> b, k |-> k, ctype |-> ctype, meta |-> meta, tags |-> tags,
-                  class |-> ClassOf(class), cseq |-> S.clock, parts |-> <<>>]
+                  class |-> ClassOf(class), cseq |-> S.clock, parts |-> <<>>,
+                  ck |-> IF cktype = "COMPOSITE" THEN "composite" ELSE "fullcrc"]
                   \* parts: sequence of [n |-> part number, c |-> Seq(blob)] sorted by n
        IN [s |-> Tick([S EXCEPT !.ups = Append(@, up), !.nu = @ + 1]),
            r |-> [NoRes EXCEPT !.uid = u]]
@@ -303,9 +313,10 @@ SetPart(ps, n, c) ==
       upper == SelectSeq(others, LAMBDA p : p.n > n)
   IN lower \o << [n |-> n, c |-> c] >> \o upper
 
-UploadPart(S, b, k, u, n, blob) ==
+UploadPart(S, b, k, u, n, blob, cksum) ==
   IF ~Exists(S, b) THEN Err(S, "NoSuchBucket")
   ELSE IF ~UpMatches(S, u, b, k) THEN Err(S, "NoSuchKey")
+  ELSE IF BadSum(cksum) THEN Err(S, "BadDigest")
   ELSE LET i == UpIdx(S, u) IN
        Ok(Tick([S EXCEPT !.ups[i].parts = SetPart(@, n, <<blob>>)]))
 
@@ -342,7 +353,7 @@ CompleteUpload(S, b, k, u, manifest, cond) ==
        ELSE IF ManifestErr(ps, manifest) # "" THEN Err(S, ManifestErr(ps, manifest))
        ELSE LET nr == [parts |-> [j \in 1..Len(ps) |-> ps[j].c], single |-> FALSE, ctype |-> up.ctype,
                        meta |-> up.meta, tags |-> up.tags, class |-> up.class, seq1 |-> Len(ps) >= 1,
-                       pcls |-> [j \in 1..Len(ps) |-> up.class]]
+                       pcls |-> [j \in 1..Len(ps) |-> up.class], ck |-> up.ck]
                 res == Install(S, b, k, nr, cond, up.cseq) IN
             IF res.r.err # "" THEN res
             ELSE [s |-> [res.s EXCEPT !.ups = RemoveAt(@, i)], r |-> res.r]
@@ -398,7 +409,7 @@ UploadView(S, b) ==
 
 \* ETag structure of a version: rule + part structure (an uninterpreted term
 \* that the harness concretises with MD5 over the blob bytes).
-ETagTerm(v) == [single |-> v.single, parts |-> v.parts]
+ETagTerm(v) == [single |-> v.single, parts |-> v.parts, ck |-> v.ck]
 
 \* -------------------------------------------------------------- invariants
 \* structural sanity + C02 on the design (Deviations = {})
